@@ -155,6 +155,11 @@ func (e *Expression) Add(res fhir.Resource, name string, value fhir.Base, option
 		}
 	}
 
+	if field.Kind() != protoreflect.MessageKind {
+		// the Go-native value of a primitive (Boolean.value, String.value, ...) is not an element
+		return fmt.Errorf("%w: field '%v' of %v is not an element", ErrNotPatchable, name, descriptor.Name())
+	}
+
 	if !field.IsList() && ref.Has(field) {
 		return fmt.Errorf("%w: unable to add value to populated scalar field '%v' in %v resource", ErrNotPatchable, name, resource.TypeOf(res))
 	}
